@@ -17,8 +17,7 @@ From OmegaGen Require Import FixpointGen.
 def prove(ctx):
     with ctx.coq_lock():
         gen_games.ensure_fixpoint(ctx)
-        ctx.prove('GenProofs/FixpointProofs.v')
-        ctx.prove('Properties/C11.v')
+        ctx.prove_with_deps('Properties/C11.v')
     ctx.trusted.append(
         'translator tie T: omega/symbolic/fixpoint.py -> gen/FixpointGen.v '
         '(step, attractor, trap, ee_image, descendants); preimage() is not '
